@@ -8,6 +8,7 @@ import (
 	"go/token"
 	"go/types"
 	"os"
+	"regexp"
 	"strconv"
 	"strings"
 )
@@ -1391,9 +1392,12 @@ func (c *FnCtx) iterateCallback(st *State, call *ast.CallExpr, con *Contract, bi
 				lasts = append(lasts, c.iterLast)
 			}
 		}
+		if m := reTrivEq.FindStringSubmatch(g); m != nil && m[1] == m[2] {
+			g = "true" // the guard compares a literal argument with itself: only the precise mode applies
+		}
 		s2 := st.clone()
 		s2.assume(tNot(g))
-		if c.invokeArbitrarily(s2, call, con, bind, envPre) && !c.diverged(s2) {
+		if g != "true" && c.invokeArbitrarily(s2, call, con, bind, envPre) && !c.diverged(s2) {
 			ends = append(ends, s2)
 			cnts = append(cnts, c.iterCount)
 			lasts = append(lasts, c.iterLast)
@@ -1566,6 +1570,8 @@ func (c *FnCtx) iterateCallback(st *State, call *ast.CallExpr, con *Contract, bi
 	c.iterLast = st.vars[lastObj]
 	return true
 }
+
+var reTrivEq = regexp.MustCompile(`^\(= (-?[0-9]+) (-?[0-9]+)\)$`)
 
 // iterProtocol: the function under verification promises (`iterates p seq S args A when C position E`) to behave like
 //
